@@ -54,7 +54,7 @@ def theorems_of(module):
     return [ns + t for t in re.findall(r"^\s*theorem\s+([A-Za-z0-9_'.]+)", src, flags=re.M)]
 
 
-def proof_obligations(pid, module, extra_modules=(), prep=None):
+def proof_obligations(pid, module, extra_modules=(), prep=None, tier="quick"):
     """lake build of the property module, forbidden-token grep, #print axioms of every property theorem."""
     res = {"module": module, "theorems": [], "failed": [], "log": ""}
     with vlib.Lock():
@@ -90,6 +90,14 @@ def proof_obligations(pid, module, extra_modules=(), prep=None):
             res["theorems"].append({"name": t, "ok": good, "axioms": ax})
             if not good:
                 res["failed"].append("axioms of %s: %s" % (t, ax))
+        # thorough tier: the compiled module (and everything it imports) through the toolchain's independent
+        # re-checker of .olean files
+        res["leanchecker"] = "not run (quick tier)"
+        if tier == "thorough":
+            p = vlib.run(["lake", "env", "leanchecker", module], cwd=LEAN, env=os.environ.copy(), check=False)
+            res["leanchecker"] = "ok" if p.returncode == 0 else "FAILED: " + (p.stdout or "")[-600:]
+            if p.returncode != 0:
+                res["failed"].append("leanchecker " + module)
     return res
 
 
@@ -225,7 +233,7 @@ def main():
         notes.append("prepare: " + e[:300])
 
     # 2. proof obligations
-    po = proof_obligations(pid, cfg["lean_module"], cfg.get("extra_modules", ()), prep if cfg.get("needs_generated", True) else None)
+    po = proof_obligations(pid, cfg["lean_module"], cfg.get("extra_modules", ()), prep if cfg.get("needs_generated", True) else None, tier)
     obligations = len(po["theorems"]) + 1  # +1: the module builds from the current Extracted/* facts
     discharged = sum(1 for t in po["theorems"] if t["ok"]) + (1 if po["build_ok"] else 0)
 
@@ -317,7 +325,7 @@ def main():
         "property_id": pid, "tier": tier, "seed": seed, "level": "proof",
         "coverage": {
             "obligations": obligations, "discharged": discharged,
-            "checker_cmd": "cd /verif/lean && lake build %s && lake env lean <#print axioms of every theorem in %s>" % (cfg["lean_module"], cfg["lean_module"]),
+            "checker_cmd": "cd /verif/lean && lake build %s && lake env lean <#print axioms of every theorem in %s>" % (cfg["lean_module"], cfg["lean_module"]) + ("; lake env leanchecker %s: %s" % (cfg["lean_module"], po.get("leanchecker", "-")) if tier == "thorough" else ""),
             "trusted_base": cfg.get("trusted_base", []) + ["Lean 4.33.0 kernel", "axioms: propext, Classical.choice, Quot.sound only (audited per theorem on this run)",
                                                               "hand-written Lean model tied to /repo by the differential correspondence of this run",
                                                               "Go harness (reflection-based value construction, canonicalisation), strconv oracle"],
